@@ -10,7 +10,7 @@ for f in ('/tmp/sv/results2.txt','/tmp/sv/results2b.txt'):
         if not m: continue
         kv=dict(x.split('=',1) for x in m.group(3).split() if '=' in x)
         res[(m.group(1),m.group(2))]=(kv,m.group(3))   # later file wins (re-verification)
-first={}
+first={}  # superseded: first-pass verdicts were fixed by hand from the session log
 for l in open('/tmp/sv/matrix2_first.txt'):
     p=l.split()
     if len(p)>=2: first[p[0]]=p[1]
